@@ -484,6 +484,29 @@ func inlineOneCall(module *Module, caller *Function, call StmtCall, callee *Func
 		}
 	}
 
+	// 5b. The callee's locals start from their initial value (or zero) on
+	// every call. LocalVariable.Init only takes effect once, when the caller
+	// is entered, so a call site that executes repeatedly (inside a caller
+	// loop) must re-initialise the copied locals explicitly.
+	for i := range callee.LocalVars {
+		idx := localOffset + uint32(i)
+		ptr := ExpressionHandle(len(caller.Expressions))
+		caller.Expressions = append(caller.Expressions, Expression{Kind: ExprLocalVariable{Variable: idx}})
+		caller.ExpressionTypes = append(caller.ExpressionTypes, TypeResolution{
+			Value: PointerType{Base: callee.LocalVars[i].Type, Space: SpaceFunction},
+		})
+		var value ExpressionHandle
+		if init := caller.LocalVars[idx].Init; init != nil {
+			value = *init
+		} else {
+			value = ExpressionHandle(len(caller.Expressions))
+			caller.Expressions = append(caller.Expressions, Expression{Kind: ExprZeroValue{Type: callee.LocalVars[i].Type}})
+			ty := callee.LocalVars[i].Type
+			caller.ExpressionTypes = append(caller.ExpressionTypes, TypeResolution{Handle: &ty})
+		}
+		prefixStmts = append(prefixStmts, Statement{Kind: StmtStore{Pointer: ptr, Value: value}})
+	}
+
 	// 6. Copy callee's NamedExpressions into caller with remapped
 	// handles. Names are prefixed with the callee function name so two
 	// helpers that both define `let foo = ...` don't collide in the
